@@ -161,28 +161,9 @@ Definition violates (c : Z) (d : doc) : bool :=
   match lookup c spec_table with Some f => f d | None => false end.
 
 (* ---------- known deviation classes ---------- *)
-Definition ge3 {A} (l : list A) : bool := (3 <=? List.length l)%nat.
-(* K1: a window list of three or more entries reaches check_time_windows (windows(2).any instead of all) *)
-Definition k1_three_windows (d : doc) : bool :=
-  existsb (fun j => existsb (fun t => existsb (fun p => match pl_times p with Some tws => ge3 tws | None => false end)
-                                              (tk_places t))
-                            (tasks (j_pickups j) ++ tasks (j_deliveries j))) (d_jobs d)
-  || existsb (fun v => ge3 (v_shifts v)
-                       || existsb (fun s => match sh_breaks s with Some bs => ge3 (break_windows s bs) | None => false end
-                                            || match sh_reloads s with Some rs => ge3 (reload_windows rs) | None => false end)
-                                  (v_shifts v)) (d_vehicles d).
-(* K2: a replacement or service task carries time windows that break the E1103 rules (E1103 looks at pickups/deliveries only) *)
-Definition k2_unchecked_task_times (d : doc) : bool :=
-  existsb (fun j => existsb (fun t => existsb (fun p => match pl_times p with Some tws => negb (times_ok tws) | None => false end)
-                                              (tk_places t))
-                            (tasks (j_replacements j) ++ tasks (j_services j))) (d_jobs d).
-(* K3: a required offset break in a shift whose start.earliest is not a date (check_e1303 calls the panicking parse_time) *)
-Definition k3_offset_break_bad_start (d : doc) : bool :=
-  existsb (fun v => existsb (fun s => match tm_val (sh_earliest s) with
-                                      | Some _ => false
-                                      | None => existsb (fun b => match b with BReqOff _ _ _ => true | _ => false end)
-                                                        (match sh_breaks s with Some bs => bs | None => [] end)
-                                      end) (v_shifts v)) (d_vehicles d).
+(* K1 (windows(2).any for three or more windows), K2 (E1103 skipped replacement / service tasks) and K3 (check_e1303 called the
+   panicking parse_time) were repaired in /repo (commits c324ed4, d5aa3e7, 89050ae): they are no longer deviation classes, the
+   theorems now cover those documents; the former witnesses are regression cases (corpus/C10: files k01-, k02-, k03-). *)
 (* K4: shift start.latest is not a date (no rule looks at it; read_fleet unwraps) *)
 Definition k4_start_latest_bad (d : doc) : bool :=
   existsb (fun v => existsb (fun s => match sh_latest s with Some l => is_none (tm_val l) | None => false end)
@@ -214,8 +195,7 @@ Definition k9_no_vehicles (d : doc) : bool :=
 Definition k10_no_profiles (d : doc) : bool := match d_profiles d with [] => true | _ => false end.
 
 Definition known_table : list (Z * (doc -> bool)) :=
-  [(1, k1_three_windows); (2, k2_unchecked_task_times); (3, k3_offset_break_bad_start); (4, k4_start_latest_bad);
-   (5, k5_offset_arity); (6, k6_capacity_empty); (7, k7_over8); (8, k8_empty_demand_vectors);
+  [(4, k4_start_latest_bad); (5, k5_offset_arity); (6, k6_capacity_empty); (7, k7_over8); (8, k8_empty_demand_vectors);
    (9, k9_no_vehicles); (10, k10_no_profiles)].
 Definition known (d : doc) : bool := existsb (fun kf => snd kf d) known_table.
 
